@@ -182,6 +182,8 @@ func init() {
 	I["flag.Lookup"] = func(t *Thread, fn *ssa.Function, a []Value) Value {
 		return newCell(fn.Signature.Results().At(0).Type().(*types.Pointer).Elem())
 	}
+	I["runtime.NumCPU"] = func(t *Thread, fn *ssa.Function, a []Value) Value { return MkBV(4, 64) }
+	I["github.com/pbnjay/memory.TotalMemory"] = func(t *Thread, fn *ssa.Function, a []Value) Value { return MkBV(8<<30, 64) }
 	I["math.Min"] = func(t *Thread, fn *ssa.Function, a []Value) Value {
 		x, y := a[0].(*Term), a[1].(*Term)
 		return Ite(RCmp(OpRLT, y, x), y, x)
